@@ -781,7 +781,7 @@ def diff_outputs(ops, impl_outs, model_outs):
                         n = dict(n, label=m["label"])      # the other admissible drawing of this element
                         DIVERGENCES["dot-label-is-identifier"] = DIVERGENCES.get("dot-label-is-identifier", 0) + 1
                     nodes.append(n)
-                ga["nodes"] = nodes
+                ga["nodes"] = sorted(nodes, key=proto.skey)       # (the canonical order is by content: the label is part of it)
             mem = ga.pop("members", {})
             # every node the model defines inside a cluster must be a member of that cluster in Graphviz's view
             ok_members = all(set(v) <= set(mem.get(k, [])) for k, v in defined.items())
